@@ -478,6 +478,18 @@ class ValidTr:
             if zero and isinstance(n.ops[0], ast.NotEq):
                 k, t = self.num(n.left)
                 return k, "(v_truthy C)", t
+        # exact whole-number tests, read as the same "is a whole number" question
+        if isinstance(n, ast.Compare) and len(n.ops) == 1 and isinstance(n.ops[0], ast.Eq):
+            for x, y in ((n.left, n.comparators[0]), (n.comparators[0], n.left)):
+                if (
+                    isinstance(y, ast.Call)
+                    and unp(y.func) in ("np.round", "np.rint", "np.floor", "np.trunc", "int", "round")
+                    and len(y.args) == 1
+                    and not y.keywords
+                    and unp(y.args[0]) == unp(x)
+                ):
+                    k, t = self.num(x)
+                    return k, "(v_intlike C)", t
         if (
             isinstance(n, ast.Call)
             and unp(n.func) == "np.isclose"
